@@ -2,7 +2,7 @@
    it observed.  [agrees] compares with the model; [C09_ok] evaluates the property on the
    observation alone, by replaying sent and received events on two folded views -- it never calls
    merge_changes or the state machines. *)
-From SC Require Import Base.Prelude Excess.Change Excess.MergeExcess Excess.DropExcess Excess.ChangesAfter Excess.Pipeline.
+From SC Require Import Base.Prelude Excess.Change Excess.MergeExcess Excess.DropExcess Excess.ChangesAfter Excess.Pipeline Excess.SendTimeout.
 
 Inductive c09case :=
 (* mergeCollectionExcess driven one action at a time; obs has one entry per action *)
@@ -244,6 +244,16 @@ Definition agrees (c : c09case) : bool :=
   | KVPipe false seed es blocked => negb blocked && value_agrees_drained (fun _ _ => false) seed es
   | KVPipe true seed es blocked => negb blocked && w_explore (fun _ _ => false) (w_init seed) es
   | KSrc _ sel bare other => src_receptive sel bare other
+  | KApiTimeout resume errored _ later written got =>
+      (* the scenario as a run of the timed-writer model (SendTimeout.timeout_script, T = 5 ticks):
+         the undeliverable write returns an error, every other one nil; the subscriber receives
+         exactly what the model delivers; `written` = the writes made while the subscription was open *)
+      match timeout_expected resume with
+      | Some (rs, dl) =>
+          errored && later && list_eqb Z.eqb got dl
+          && list_eqb Z.eqb written (map res_val (removelast rs))
+      | None => false
+      end
   | _ => true    (* the public-API runs are judged by the oracle only: their receive pattern is
                     decided by the scheduler (the Pull goroutine holds one event), not recorded *)
   end.
